@@ -150,25 +150,20 @@ def run_config(chk, config):
     chk.oblig(bool(ref), "refusal | ControlMessage::write", "ControlMessage::write has no refusing path for a message over 65535 octets", {},
               {"obligation": "a refusal path exists for messages over 65535 octets"})
 
-    # ---------------- hide: stored original length
+    # ---------------- hide: stored original length = total length of the original AVP
+    from hiding import Extract, plaintext_facts
+    from rules.c11 import key_facts, xor_facts
     eng = encode_engine(chk, fx)
-    rets = eng.analyse(a.avp_hide["key"], name="AVP::hide[%s]" % config)
-    record_engine(chk, eng, "AVP::hide [%s]: %d return paths" % (config, len(rets)))
+    X = Extract(eng, a.avp_hide)
+    record_engine(chk, eng, "AVP::hide [%s]: %d return paths" % (config, len(X.rets)))
     chk.add_engine_obligs(eng, ("narrow",), "C07 no truncating cast of a length", only_fns=lambda o: o.fn.endswith("AVP::hide"))
-    nh = 0
-    for st, v in rets:
-        pats = [e for e in st.events() if e[0] == "wat"]
-        if not pats:
-            continue            # hide(Hidden) = identity
-        nh += 1
-        _, wid, (plen, pdesc), off, site, okpre, Wat = pats[0]
-        good = len(pats) == 1 and off.lin == Lin.const(0) and plen == Lin.const(2) and pdesc[0] == "be" and isinstance(pdesc[1], VInt) \
-            and eng.ent(st, c_eq(pdesc[1].lin, Wat + 4))
-        chk.oblig(good, "hide-length | AVP::hide", "hide stores an original length %r that is not 6 + inner encoding (%r) - 2" % (pdesc[1].lin if len(pdesc) > 1 and isinstance(pdesc[1], VInt) else pdesc, Wat),
-                  {"rule": "original length subfield = total length of the original AVP", "path": st.notes()[-5:]},
-                  {"obligation": "hide: original-length subfield = 6 + |payload| (attribute type replaced by the length)"} if nh == 1 else None)
-    chk.require_anchor(nh >= 39, "hide analysed for >= 39 non-hidden kinds (found %d)" % nh)
-
+    dests = set(x["dest"] for x in xor_facts(eng, X, key_facts(eng, X)[1]))
+    pf = plaintext_facts(eng, X, dests)
+    bad = [p for f in pf for p in f["problems"] if "original-length" in p or "16-bit" in p or "unknown" in p]
+    chk.oblig(not bad and len(pf) >= 39, "hide-length | AVP::hide",
+              "hide stores an original length that is not 6 + |value|: %s" % (sorted(set(bad))[:2] or "plaintext buffer not found (%d paths)" % len(pf)),
+              {"rule": "original length subfield = total length of the original AVP"},
+              {"obligation": "hide: original-length subfield = 6 + |payload| for all 39 kinds", "paths": len(pf)})
 
 def run(chk):
     run_config(chk, "default")
